@@ -3,7 +3,7 @@
    The theorems speak about the md5 PRE-IMAGE (`preimage`); md5 itself is
    outside the model. *)
 From Coq Require Import List String ZArith QArith Bool Permutation.
-From NV Require Import Base.Exn Base.PyVal Model.HashEnc Proofs.StringP Proofs.HashEncP Proofs.C12P Gen.Tables.
+From NV Require Import Base.Exn Base.PyVal Model.HashEnc Proofs.StringP Proofs.HashEncP Proofs.C12P Proofs.C12TwiceP Gen.Tables.
 Import ListNotations.
 Local Close Scope Q_scope.
 Local Open Scope string_scope.
@@ -85,6 +85,20 @@ Theorem C12_sensitive_steps :
   forall l1 l2, Forall (fun a => In a step_names) l1 -> Forall (fun a => In a step_names) l2 ->
     encode (VList (map VStr l1)) = encode (VList (map VStr l2)) -> l1 = l2.
 Proof. split; [vm_compute; reflexivity | apply steps_injective; vm_compute; reflexivity]. Qed.
+
+(* the two settings that enter the hash twice (in front of the data and again in the loop
+   over FP_DEFAULT): still injective -- equal pre-images force equal encodings *)
+Theorem C12_sensitive_twice_hashed : forall fp fp' x y k s s' v v',
+  In k fp_default_keys -> (k = "preprocessing" \/ k = "preprocessing_options") ->
+  agree_except k fp fp' ->
+  fp_get fp k = Ok v -> fp_get fp' k = Ok v' ->
+  preimage fp_default_keys fp x y = Ok s -> preimage fp_default_keys fp' x y = Ok s' ->
+  (s = s' <-> encode v = encode v').
+Proof. exact sensitive_twice. Qed.
+
+Example C12_twice_hashed_keys_present :
+  In "preprocessing" fp_default_keys /\ In "preprocessing_options" fp_default_keys.
+Proof. split; vm_compute; tauto. Qed.
 
 (* --- structured values: the full statement is FALSE of the faithful model --- *)
 (* changing ONE element of a list/tuple/parameter always shows ... *)
